@@ -47,7 +47,8 @@ SITE_EXEMPT = {
     ("dask/graph_manipulation.py", "_bind_one"): {"blocker": "C16 (not applicable): keys are cloned with seed", "omit_keys": "C16", "omit_layers": "C16", "seed": "C16"},
     ("dask/array/creation.py", "eye"): {"chunks": "the token uses vchunks[0], the uniform block size that is actually used"},
     ("dask/array/percentile.py", "percentile"): {"kwargs": "only the deprecated `interpolation` keyword, folded into `method`; anything else raises"},
-    ("dask/array/random.py", "_wrap_func"): {"rng": "enters through tokenize(bitgens): the spawned bit generators of rng (C28)"},
+    ("dask/array/core.py", "store"): {"kwargs": "scheduler options: forwarded to dask.compute/persist, never into the store tasks"},
+    ("dask/array/random.py", "_wrap_func"): {"extra_chunks": "derived at every call site from a distribution parameter that is in args (len(pvals), len(colors), mean.shape)", "rng": "enters through tokenize(bitgens): the spawned bit generators of rng (C28)"},
 }
 NAME_SOURCES = ("deterministic_token", "_token", "super()._name", ".expr._name", ".array._name", "tokenize(*self.operands)", "_tokenize_deterministic(*self.operands)", "self.obj.key", "self.__name", "self._info[")
 
@@ -60,16 +61,31 @@ def _exempt(rel, qn, p):
 
 
 def check(ctx):
+    key_inputs(ctx)
+    name_overrides(ctx)
+    _expr_token(ctx)
+    # dask/tokenize.py is an anchor of this property: the injectivity rules of C12 are part of it
+    from . import C12
+
+    C12.check(ctx)
+
+
+def key_inputs(ctx, only=None, floor=80):
+    """TOKFLOW.key-inputs over every key-forming function (or only the (relpath, qualname) pairs given)."""
     model = ctx.model
     n_funcs = 0
     for rel in model.package_files("dask"):
         if rel.startswith("dask/dataframe/") or "/tests/" in rel:
+            continue
+        if only is not None and rel not in {r_ for r_, _ in only}:
             continue
         src = model.read(rel)
         if "tokenize" not in src:
             continue
         mod = model.module(rel)
         for qn, f in mod.functions():
+            if only is not None and (rel, qn) not in only:
+                continue
             r = analyse(f)
             if r is None:
                 continue
@@ -89,10 +105,7 @@ def check(ctx):
                 "" if not missing else f"parameter(s) {missing} shape the result but not the key: two calls differing only there share task keys",
             )
     ctx.count("key_forming_functions", n_funcs)
-    ctx.floor("key_forming_functions", 80, "functions forming a key with tokenize outside dask/dataframe")
-
-    name_overrides(ctx)
-    _expr_token(ctx)
+    ctx.floor("key_forming_functions", floor, "functions forming a key with tokenize outside dask/dataframe")
 
 
 def name_overrides(ctx, prefixes=("dask/dataframe/dask_expr/", "dask/array/_array_expr/", "dask/_expr.py"), floor=25):
